@@ -140,7 +140,7 @@ def invoke(rig: console.ApiRig, target, call: int, args: list):
     if call == 1:
         coro = target.set_power(POWER_CTL[args[0]])
     elif call == 2:
-        coro = target.set_mode(MODES[args[0]], power_on=bool(args[1]))
+        coro = target.set_mode(MODES[args[0]], power_on=[False, True, 0, 1][args[1]])     # bools and plain ints
     elif call == 3:
         coro = target.set_fan_speed(FANS[args[0]])
     elif call in (4, 12):
@@ -184,6 +184,8 @@ def model_args(call: int, args: list) -> list[int]:
     if call in (4, 12):
         m, e = dyadic(args[0])
         return [m, e]
+    if call == 2:
+        return [args[0], args[1] % 2]          # power_on given as False / True / 0 / 1
     return list(args)
 
 
